@@ -12,7 +12,9 @@ PROPS = {
         "clause": "strict and lax composition: composition fails (None) instead of panicking on a type mismatch; the lax "
                   "composite is the juxtaposition with the i-th target of f unified with the i-th source of g; the strict construction is the typed "
                   "pushout cospan: both coequalised legs land in one node space whose labels agree on the glued "
-                  "pairs (rule FIBRE), the result is well-formed and typed source(f) -> target(g)",
+                  "pairs (rule FIBRE), the result is well-formed and typed source(f) -> target(g), and every leg, incidence "
+                  "list and node label of the result is the operand's mapped through the coequalizer q of (f.t, g.s) "
+                  "injected into the disjoint union (term equality; a result not written through q is reported)",
         "entries": [f"<{S_OH}<K, O, A> as category::traits::Arrow>::compose",
                     f"<&{S_OH}<K, O, A> as std::ops::Shr<",
                     f"{S_H}::<K, O, A>::coequalize_vertices",
@@ -41,8 +43,13 @@ PROPS = {
     },
     "C04": {
         "clause": "dagger swaps the legs and leaves the hypergraph untouched (provenance); spider construction "
-                  "accepts iff both legs land in the node list and builds a discrete diagram; half_spider = identity target leg",
+                  "accepts iff both legs land in the node list and builds a discrete diagram; half_spider = identity target leg; "
+                  "the composition the spider-fusion and dagger-contravariance laws are stated with glues through the "
+                  "coequalizer of the two boundary legs and through nothing else (strict and lax compose)",
         "entries": [f"<{S_OH}<K, O, A> as category::spider::Spider<K>>::", f"{S_OH}::<K, O, A>::spider",
+                    f"<{S_OH}<K, O, A> as category::traits::Arrow>::compose",
+                    "Arrow for lax::open_hypergraph::OpenHypergraph<O, A>>::compose",
+                    "lax::category::<impl lax::open_hypergraph::OpenHypergraph<O, A>>::lax_compose",
                     "category::spider::Spider::half_spider",
                     "Spider<array::vec::vec_array::VecKind> for lax::open_hypergraph::OpenHypergraph<O, A>>::",
                     "lax::open_hypergraph::OpenHypergraph::<O, A>::spider",
@@ -209,7 +216,10 @@ PROPS.update({
         "clause": "NARROW: the Var/operator builders never panic on a well-formed builder state (every index into the "
                   "shared state is in range), leave it well-formed, and build() returns Ok or hands the state back; "
                   "Forget/ForgetMonogamous::map_operation return well-formed diagrams for every label mix (the spider "
-                  "branch is reached only with uniform labels); no RefCell borrow overlaps another",
+                  "branch is reached only with uniform labels); Forget::map_operation removes a hyperedge only on a path "
+                  "that established `a == var` and uniform incident labels, replaces it by ONE merged node carrying every "
+                  "leg position (nothing for 0 -> 0) and keeps every other operation as the singleton of its own label; "
+                  "ForgetMonogamous additionally only for 1 -> 1; no RefCell borrow overlaps another",
         "entries": ["lax::var::"],
         "anchors": ["lax::var::var::Var::<O, A>::new", "lax::var::var::build", "lax::var::operators::operation",
                     "lax::var::forget::forget"],
